@@ -363,7 +363,7 @@ func (c *clientPlaySessionHandler) handlePluginMessage(packet *plugin.Message) {
 	} else if plugin.IsRegister(packet) {
 		channelsIDs, channels := c.getChannels(c.player.clientsideChannels.Len(), packet, c.player.Protocol())
 		c.player.clientsideChannels.Add(channels...)
-		if backendConn.WritePacket(packet) != nil {
+		if backendConn.WritePacket(packet) == nil {
 			c.proxy().event.Fire(&PlayerChannelRegisterEvent{
 				channels: channelsIDs,
 				player:   c.player,
